@@ -22,12 +22,18 @@ theorem parseU64_le {s : Bytes} {n : Nat} (h : parseU64 s = some n) : n ≤ U64_
     · cases hm; assumption
     · cases hm
 
+theorem parsePos_some {s : Bytes} {n : Nat} (h : parsePos s = some n) : s.head? ≠ some 43 ∧ parseU64 s = some n := by
+  unfold parsePos at h
+  split at h
+  · cases h
+  · exact ⟨by assumption, h⟩
+
 theorem parseRange_le {h : Bytes} {a b : Nat} (hp : parseRange h = some (a, b)) :
     a ≤ U64_MAX ∧ b ≤ U64_MAX := by
   unfold parseRange at hp
   repeat (split at hp <;> try cases hp)
   rename_i h1 h2
-  exact ⟨parseU64_le h1, parseU64_le h2⟩
+  exact ⟨parseU64_le (parsePos_some h1).2, parseU64_le (parsePos_some h2).2⟩
 
 /-- **206**: a single byte range `a-b` with `a ≤ b` and `a < len`. -/
 theorem single_range_206 (body h : Bytes) (a b : Nat) (hp : parseRange h = some (a, b))
@@ -298,8 +304,19 @@ theorem parseRange_render (a b : Nat) (ha : a ≤ U64_MAX) (hb : b ≤ U64_MAX) 
     conv => lhs; arg 1; arg 2; rw [e, l, List.drop_left]
     have : 6 + (dec a).length + 1 + (dec b).length - (6 + (dec a).length + 1) = (dec b).length := by omega
     rw [this, List.take_length]
+  have hp : ∀ n, n ≤ U64_MAX → parsePos (dec n) = some n := by
+    intro n hn
+    unfold parsePos
+    have hne := dec_ne_nil n
+    cases hd : dec n with
+    | nil => exact absurd hd hne
+    | cons c cs =>
+      have hc : isDigit c = true := dec_all n c (by rw [hd]; simp)
+      have : c ≠ 43 := by intro e; subst e; simp [isDigit] at hc
+      simp only [List.head?_cons, Option.some.injEq, this, ↓reduceIte]
+      rw [← hd]; exact parseU64_dec n hn
   unfold parseRange
-  simp only [hall, hsw, hany, hpos, hs1, hs2, parseU64_dec a ha, parseU64_dec b hb]
+  simp only [hall, hsw, hany, hpos, hs1, hs2, hp a ha, hp b hb]
   simp
 
 /-- End to end for the canonical spelling: `Range: bytes=a-b` with `a ≤ b`, `a < len`. -/
